@@ -32,6 +32,7 @@ def step (d : DS) : List String → DS × String
   | ["inst", k, id] =>
     match kindOf k, nat? id with
     | some k, some id =>
+      if (⟨id, k⟩ : Dyn) ∈ d.s.issued then (d, "reject-dup") else
       let s := d.s.install { id := id, kind := k }
       ({ d with s := s }, s.show)
     | _, _ => (d, "bad-op")
@@ -40,6 +41,7 @@ def step (d : DS) : List String → DS × String
     | some c =>
       if d.pend ≠ [] ∨ d.serving.isSome then (d, "reject-open-pass")
       else if ¬ d.s.okTest c then (d, "reject")
+      else if ¬ passOkB d.s (c.map d.s.locate) then (d, "reject-loc")
       else
         let descr := " ".intercalate (c.map (fun pos => ((d.s.slotAt pos).map Slot.showCb).getD "?"))
         ({ d with s := d.s.test c, pend := c.map d.s.locate, todo := c }, if c.isEmpty then "-" else descr)
